@@ -36,6 +36,7 @@ ulimit -v $((24*1024*1024)) 2>/dev/null || true
 
 if [ "${1:-}" = "replay" ]; then
   [ $# -ge 2 ] || { echo "usage: $0 replay <path>" >&2; exit 2; }
+  case "$2" in /*) ;; *) set -- "$1" "$OLDPWD/$2";; esac
   prof=$(python3 -c "import json,sys;print(json.load(open(sys.argv[1])).get('profile','release'))" "$2" 2>/dev/null || echo release)
   if [ "$prof" = dev ]; then build dev; exec ./target/debug/smtverif replay "$2"; fi
   build release; exec ./target/release/smtverif replay "$2"
